@@ -1,3 +1,60 @@
+(* Property C13 — a finite lazy list is indistinguishable from the list it enumerates.
+   Only statements, each closed by `exact`, each followed by Print Assumptions.
+   Model: Model/LazyList.v (heap of cells: the list built over the source and its deep
+   copies, which are lazy views of their original).  `abs h c` is the list cell c denotes,
+   `spec k l` is observation k on the plain Python list l, `mask` hides the value of next(L)
+   (a move of the cache, not an observation of the list; its value is C13_next_value),
+   `op_ok` excludes only a slice step of 0 (see C13_step_zero_outside). *)
+From Coq Require Import List ZArith Bool.
 From Vy Require Import Model.LazyList Proofs.LazyListProofs.
-Theorem C13_tmp : True. Proof. exact tmp. Qed.
-Print Assumptions C13_tmp.
+Import ListNotations.
+Open Scope Z_scope.
+
+(* one observation, any well-formed heap: the result is the plain list's result, the heap
+   stays well-formed, every existing cell denotes what it denoted, a new cell (deep_copy)
+   denotes what the copied cell denotes *)
+Theorem C13_step : forall h o, wf h -> h <> [] -> op_ok o = true ->
+  let c := resolve h (target o) in
+  mask (what o) (fst (step h o)) = spec (what o) (abs h c) /\
+  (wf (snd (step h o)) /\ (length h <= length (snd (step h o)))%nat /\
+   (forall c', (c' < length h)%nat -> abs (snd (step h o)) c' = abs h c') /\
+   (forall c', (length h <= c' < length (snd (step h o)))%nat -> abs (snd (step h o)) c' = abs h c)).
+Proof. exact step_ok. Qed.
+Print Assumptions C13_step.
+
+(* every history on every source: the outputs are the plain list's outputs *)
+Theorem C13 : forall src ops, Forall (fun o => op_ok o = true) ops ->
+  masked ops (fst (run (init src) ops)) = map (fun o => spec (what o) src) ops.
+Proof. exact all_histories. Qed.
+Print Assumptions C13.
+
+(* observations never change the sequence a lazy list (or any of its copies) denotes *)
+Theorem C13_denotation_kept : forall src ops, Forall (fun o => op_ok o = true) ops ->
+  forall c, (c < length (snd (run (init src) ops)))%nat -> abs (snd (run (init src) ops)) c = src.
+Proof. exact denotation_kept. Qed.
+Print Assumptions C13_denotation_kept.
+
+(* next(L) returns the first item of the denoted list that is not yet in the cache *)
+Theorem C13_next_value : forall h o, wf h -> h <> [] -> what o = KNext ->
+  let c := resolve h (target o) in
+  fst (step h o) = match nth_error (abs h c) (length (gen_of c h)) with Some v => OZ v | None => OStop end.
+Proof. exact next_value. Qed.
+Print Assumptions C13_next_value.
+
+(* non-vacuity: an admissible history with copies of copies, wrap-around, positions counted
+   from the end, next, reversal; model outputs and plain-list outputs computed *)
+Example C13_example :
+  Forall (fun o => op_ok o = true) ex_ops /\
+  fst (run (init ex_src) ex_ops) =
+    [OZ 0; OUnit; OZ 1; OL [0; 1]; OUnit; OZ 0; OL [2; 1]; OL [1; 0; 2]; OB true; OZ 3; OIndexError] /\
+  map (fun o => spec (what o) ex_src) ex_ops =
+    [OZ 0; OUnit; OUnit; OL [0; 1]; OUnit; OZ 0; OL [2; 1]; OL [1; 0; 2]; OB true; OZ 3; OIndexError].
+Proof. exact example_history. Qed.
+Print Assumptions C13_example.
+
+(* the excluded observation: L[::0] is L[::1] on a LazyList, ValueError on a list *)
+Example C13_step_zero_outside :
+  fst (step (init [5]) {| target := 0; what := KSlice None None (Some 0) |}) = OL [5] /\
+  spec (KSlice None None (Some 0)) [5] = OValueError.
+Proof. exact step_zero_differs. Qed.
+Print Assumptions C13_step_zero_outside.
